@@ -204,8 +204,8 @@ func cmdCheck(args []string) int {
 	// classify
 	discharged := 0
 	byBackend := map[string]map[string]float64{}
-	var samples []interface{}
-	var unproved []string
+	samples := []interface{}{}
+	unproved := []string{}
 	var maxSecs float64
 	for _, o := range all {
 		good := o.Result.Status == "unsat"
@@ -269,7 +269,7 @@ func cmdCheck(args []string) int {
 		violations = append(violations, v)
 	}
 	// bounded stand-ins
-	var bounded []interface{}
+	bounded := []interface{}{}
 	for _, b := range prop.Bounded {
 		bound := b.Quick
 		if *tier == "thorough" && b.Thorough != "" {
@@ -292,7 +292,7 @@ func cmdCheck(args []string) int {
 			samples = append(samples, map[string]interface{}{"obligation": o.Name, "clause": o.Desc, "result": o.Result.Status, "solver": o.Result.Solver, "seconds": round3(o.Result.Seconds), "smt_bytes": len(o.Query)})
 		}
 	}
-	var funcs []interface{}
+	funcs := []interface{}{}
 	for _, r := range results {
 		n := 0
 		for _, o := range r.fv.obls {
@@ -372,10 +372,10 @@ func finish(id, tier string, seed int, t0 time.Time, prop *PropSpec, all []*Obli
 	cov["trusted_base"] = tb
 	cov["explanation"] = "contract-based deductive verification: every obligation generated from the current source of the functions under contract is discharged by an SMT solver; bounded stand-ins (if any) are listed separately and never counted as discharged"
 	cov["na_clauses"] = prop.NAClauses
-	var kf []string
+	kf := []string{}
 	kf = append(kf, knownLines...)
 	cov["known_findings"] = kf
-	var as []string
+	as := []string{}
 	for a := range assumptions {
 		as = append(as, a)
 	}
